@@ -711,3 +711,18 @@ def str_cmp(ctx, args, st):
                 if eq: yield from go(s2, i + 1)
                 else: yield s2, 'ret', wrap('Greater')
     return go(st, 0)
+
+
+@model(r'^(?:core::)?str::<impl str>::(strip_suffix|strip_prefix)::<&&?str>$')
+def str_strip_affix(ctx, args, st):
+    s, p = str_of(st, args[0]), str_of(st, args[1])
+    if s.facts is not None or p.facts is not None: raise Unsupported('strip_suffix on abstract strings')
+    suffix = 'strip_suffix' in ctx.callee
+    at = len(s.chars) - len(p.chars) if suffix else 0
+    def g():
+        if at < 0:
+            yield st, 'ret', NONE; return
+        for s2, hit in _match_at(ctx.ex, st, s.chars, at, p.chars):
+            if not hit: yield s2, 'ret', NONE
+            else: yield s2, 'ret', Some(s2.ref(StrV(s.chars[:at] if suffix else s.chars[len(p.chars):], 'str')))
+    return g()
